@@ -231,6 +231,11 @@ pub fn run_grid_range(prop: &str, grid: &str, from: u64, to: u64, timeout_s: u64
 }
 /// C11's known findings are 22 crashing scenarios (each at up to three depths): the limit must sit above them.
 const MAX_ABNORMAL: usize = 96;
+/// A confirmed hang costs four watchdog periods of CPU time; eight of them are verdict enough.
+const MAX_HANGS: usize = 8;
+fn too_many(ab: &[(u64, Abnormal)]) -> bool {
+    ab.len() >= MAX_ABNORMAL || ab.iter().filter(|x| x.1.kind() == "hang").count() >= MAX_HANGS
+}
 
 fn run_grid_from(prop: &str, grid: &str, start: u64, len: u64, batch: u64, timeout_s: u64, deadline: std::time::Instant) -> GridResult {
     let next = AtomicU64::new(start);
@@ -246,7 +251,7 @@ fn run_grid_from(prop: &str, grid: &str, start: u64, len: u64, batch: u64, timeo
                 }
                 // every confirmed crash or hang costs a watchdog period twice over: a handful of them
                 // is a verdict, the rest of the grid is left unexplored (and reported as such)
-                if total.lock().unwrap().1.len() >= MAX_ABNORMAL {
+                if too_many(&total.lock().unwrap().1) {
                     incomplete.store(1, Ordering::Relaxed);
                     break;
                 }
@@ -257,7 +262,7 @@ fn run_grid_from(prop: &str, grid: &str, start: u64, len: u64, batch: u64, timeo
                 let to = (from + batch).min(len);
                 let mut cur = from;
                 while cur < to {
-                    if std::time::Instant::now() >= deadline || total.lock().unwrap().1.len() >= MAX_ABNORMAL {
+                    if std::time::Instant::now() >= deadline || too_many(&total.lock().unwrap().1) {
                         incomplete.store(1, Ordering::Relaxed);
                         break;
                     }
